@@ -94,9 +94,11 @@ class Module:
         except SyntaxError as err:
             raise AnalysisError("cannot parse %s: %s" % (self.relpath, err))
         # helpers that are not part of the confirmed inventory are analysed in place of their calls
-        from .inline import inline_module
+        from .inline import inline_module, import_foreign_helpers
         try:
+            self.tree, foreign = import_foreign_helpers(self.tree, name, repo.raw_trees)
             self.tree, self.inline_report = inline_module(self.tree, name)
+            self.inline_report = foreign + self.inline_report
         except RecursionError:
             self.inline_report = ["inlining abandoned: recursion limit"]
         self.functions = {}
@@ -173,6 +175,15 @@ class Repo:
             raise AnalysisError("package directory %s not found" % self.pkgdir)
         self.modules = {}
         self.not_analysed = []
+        # the modules as written, for helpers that moved from one module to another (inline.import_foreign_helpers)
+        self.raw_trees = {}
+        for fn in sorted(os.listdir(self.pkgdir)):
+            if fn.endswith(".py") and fn not in NOT_ANALYSED:
+                try:
+                    with open(os.path.join(self.pkgdir, fn), "rb") as fh:
+                        self.raw_trees[fn[:-3]] = ast.parse(fh.read().decode("utf-8"))
+                except (SyntaxError, UnicodeDecodeError):
+                    pass
         for fn in sorted(os.listdir(self.pkgdir)):
             p = os.path.join(self.pkgdir, fn)
             if fn in NOT_ANALYSED:
